@@ -88,6 +88,8 @@ CHECKS['C20'] = {
     'targets': [
         {'name': 'c20_pulsenode', 'src': ['harness/C20_pulsenode.cpp'], 'quick_n': 10000000, 'thorough_n': 80000000, 'maxlen': 400, 'min_nontrivial': 1000000,
          'class_floors': {'case_with_callback_mutation': 200000, 'case_pulse_fired_nodes_at_two_depths': 100000, 'case_with_deferred_due_node': 20000, 'case_node_invalidated_between_wait_and_pulse': 200000, 'case_callback_destroyed_a_node_off_the_call_stack': 50000, 'case_time_question_answered_by_re_arming_children': 200000}},
+        {'name': 'c20_server', 'src': ['harness/C20_server.cpp'], 'quick_n': 300000, 'thorough_n': 2400000, 'maxlen': 160, 'min_nontrivial': 20000,
+         'class_floors': {'case_factory_asked_while_not_ready_to_accept': 2000, 'case_participant_joined_after_the_first_cycle': 20000, 'case_session_left': 20000}},
     ],
 }
 
@@ -256,7 +258,7 @@ CHECKS['C15'] = {
     'assumptions': ['subjects for range patterns are canonical decimal integers or purely alphabetic strings'],
     'targets': [
         {'name': 'c15_patterns', 'src': ['harness/C15_patterns.cpp'], 'quick_n': 3000000, 'thorough_n': 24000000, 'maxlen': 300, 'min_nontrivial': 300000, 'timeout_is_violation': False,
-         'class_floors': {'mode_ast_patterns': 500000, 'mode_escape_law': 200000, 'mode_numeric_ranges': 200000, 'mode_raw_pattern_uniqueness': 100000, 'mode_segmented_matcher': 80000, 'case_negated': 100000, 'case_comma_list': 200000}},
+         'class_floors': {'mode_ast_patterns': 500000, 'mode_escape_law': 200000, 'mode_numeric_ranges': 200000, 'mode_raw_pattern_uniqueness': 50000, 'mode_segmented_matcher': 80000, 'mode_path_matcher': 40000, 'case_path_matched_by_a_later_pattern_of_its_depth_only': 10000, 'case_segmented_matcher_object_reused': 40000, 'case_segmented_pattern_negated': 40000, 'case_matcher_object_reused': 80000, 'case_negated': 100000, 'case_comma_list': 200000}},
     ],
 }
 
@@ -304,7 +306,7 @@ CHECKS['C11'] = {
     'assumptions': [],
     'targets': [
         {'name': 'c11_thread', 'src': ['harness/C11_thread.cpp'], 'quick_n': 150000, 'thorough_n': 1200000, 'maxlen': 300, 'min_nontrivial': 20000, 'budget': 120, 'stall_is_violation': True,
-         'class_floors': {'signalling_socket_pair': 3000, 'signalling_wait_condition': 3000, 'case_messages_queued_before_start': 3000, 'case_restart_of_same_thread_object': 2000, 'case_extra_sender_threads': 3000, 'case_own_event_loop_blocking_on_the_wakeup_socket': 5000, 'case_own_loop_with_sockets_and_messages_before_start': 500, 'case_replies_collected_after_join': 3000, 'case_restart_after_join_with_replies_uncollected': 1000, 'case_thread_has_a_callback_mechanism': 10000, 'case_replies_delivered_by_dispatch_callbacks': 3000}},
+         'class_floors': {'signalling_socket_pair': 3000, 'signalling_wait_condition': 3000, 'case_messages_queued_before_start': 3000, 'case_restart_of_same_thread_object': 2000, 'case_extra_sender_threads': 3000, 'case_own_event_loop_blocking_on_the_wakeup_socket': 5000, 'case_own_loop_with_sockets_and_messages_before_start': 500, 'case_replies_collected_after_join': 3000, 'case_restart_after_join_with_replies_uncollected': 1000, 'case_thread_has_a_callback_mechanism': 10000, 'case_replies_delivered_by_dispatch_callbacks': 3000, 'case_replies_collected_by_callbacks_only': 3000, 'case_started_and_shut_down_with_nothing_sent': 800}},
     ],
 }
 
